@@ -118,6 +118,24 @@ func (w *world) hostile(a action) {
 		r, _ := rm.NewRelease()
 		r.SetId(uint32(exp))
 		r.SetReferenceCount(1)
+	case "return-last-question", "return-last-question-exception":
+		qid := 0
+		w.mu.Lock()
+		if len(w.questions) > 0 {
+			qid = w.questions[len(w.questions)-1]
+		}
+		w.mu.Unlock()
+		r, _ := rm.NewReturn()
+		r.SetAnswerId(uint32(qid))
+		r.SetReleaseParamCaps(false)
+		if a.Kind == "return-last-question" {
+			p, _ := r.NewResults()
+			s, _ := capnp.NewStruct(p.Segment(), capnp.ObjectSize{DataSize: 8, PointerCount: 1})
+			p.SetContent(s.ToPtr())
+		} else {
+			x, _ := r.NewException()
+			x.SetReason("verif-late-exception")
+		}
 	case "bootstrap-reused-question":
 		b, _ := rm.NewBootstrap()
 		b.SetQuestionId(uint32(a.Q))
